@@ -137,6 +137,12 @@ def coq_build(targets, timeout=1500):
     with CoqLock():
         mk = os.path.join(COQ, "Makefile")
         cp = os.path.join(COQ, "_CoqProject")
+        # _CoqProject always lists exactly the .v files present (a stale or missing entry would break every build)
+        want = "-Q . Cassis\n" + "".join(f + "\n" for f in sorted(x for x in os.listdir(COQ) if x.endswith(".v"))) \
+            + "".join("Props/" + f + "\n" for f in sorted(x for x in os.listdir(os.path.join(COQ, "Props")) if x.endswith(".v")))
+        if not os.path.exists(cp) or open(cp).read() != want:
+            with open(cp, "w") as f:
+                f.write(want)
         if not os.path.exists(mk) or os.path.getmtime(mk) < os.path.getmtime(cp):
             rc, out = _run(["coq_makefile", "-f", "_CoqProject", "-o", "Makefile"], COQ, 120)
             if rc != 0:
